@@ -463,6 +463,7 @@ def render_traceback(case, directory, modname):
     from rich.traceback import Traceback
     text, frames = gen_module(case["shape"], case["b"], case["pre"], case["post"], case["trail"], case["final_nl"])
     path = os.path.join(directory, modname + ".py")
+    assert len(path) < 70, "scratch path too long for a one-line frame header at width 100: %r" % path
     with open(path, "w", encoding="utf-8") as f:
         f.write(text)
     linecache.clearcache()
@@ -594,8 +595,9 @@ def _part_tb(sh, tier, res):
 def plan(tier, seed):
     ns = 64 if tier == "quick" else 256
     nt = 16 if tier == "quick" else 48
-    return [{"part": "syn", "i": i, "n": ns} for i in range(ns)] + \
-           [{"part": "tb", "i": i, "n": nt} for i in range(nt)]
+    # traceback shards first: they are the cheap part and must not be the one a wall cap cuts off
+    return [{"part": "tb", "i": i, "n": nt} for i in range(nt)] + \
+           [{"part": "syn", "i": i, "n": ns} for i in range(ns)]
 
 
 def run_shard(sh, tier, seed):
